@@ -353,10 +353,18 @@ func suiteDiscover(args []string) {
 	}
 	sups := lists(*maxSup)
 	offers := lists(*maxOffer)
+	// ONE Server value for the whole sweep, re-configured between calls (sequentially; nothing is serving): the answer
+	// depends on the configuration at the time of the call, not on one seen earlier
+	s := &kmip.Server{}
 	for _, sup := range sups {
 		for _, offer := range offers {
 			cfgCopy := append([]kmip.ProtocolVersion(nil), sup...)
-			s := &kmip.Server{SupportedVersions: cfgCopy}
+			if len(offer)%2 == 0 || len(s.SupportedVersions) != len(sup) {
+				s.SupportedVersions = cfgCopy // replaced
+			} else {
+				copy(s.SupportedVersions, sup) // edited in place (same length)
+				cfgCopy = s.SupportedVersions
+			}
 			item := &kmip.RequestBatchItem{Operation: kmip.OPERATION_DISCOVER_VERSIONS, RequestPayload: kmip.DiscoverVersionsRequest{ProtocolVersions: append([]kmip.ProtocolVersion(nil), offer...)}}
 			resp, err := s.VerifDiscoverVersions(&kmip.RequestContext{}, item)
 			obs := "error"
